@@ -365,6 +365,27 @@ class DefaultPredictionStrategy(object):
 
         return res
 
+    def _ignore_missing_observations(self, train_train_covar: LinearOperator, test_train_covar: Tensor):
+        """
+        Restricts the train/train and test/train covariances to the training targets that are not NaN, following
+        :class:`~gpytorch.settings.observation_nan_policy` the same way :meth:`_mean_cache` does.
+        """
+        nan_policy = settings.observation_nan_policy.value()
+        if nan_policy == "mask":
+            observed = settings.observation_nan_policy._get_observed(
+                self.train_labels, torch.Size((self.train_labels.shape[-1],))
+            ).reshape(-1)
+            train_train_covar = MaskedLinearOperator(to_linear_operator(train_train_covar), observed, observed)
+            test_train_covar = test_train_covar[..., observed]
+        elif nan_policy == "fill":
+            # Decouple the missing observations: zero rows and columns, unit diagonal (see _mean_cache)
+            observed = (~torch.isnan(self.train_labels)).to(test_train_covar.dtype)
+            kernel_mask = observed[..., None] * observed[..., None, :]
+            torch.diagonal(kernel_mask, dim1=-2, dim2=-1)[...] = 1
+            train_train_covar = to_linear_operator(to_dense(train_train_covar) * kernel_mask)
+            test_train_covar = test_train_covar * observed[..., None, :]
+        return train_train_covar, test_train_covar
+
     def exact_predictive_covar(
         self, test_test_covar: LinearOperator, test_train_covar: LinearOperator
     ) -> LinearOperator:
@@ -392,6 +413,7 @@ class DefaultPredictionStrategy(object):
                 train_train_covar = self.likelihood(dist, self.train_inputs).lazy_covariance_matrix
 
             test_train_covar = to_dense(test_train_covar)
+            train_train_covar, test_train_covar = self._ignore_missing_observations(train_train_covar, test_train_covar)
             train_test_covar = test_train_covar.transpose(-1, -2)
             covar_correction_rhs = train_train_covar.solve(train_test_covar)
             # For efficiency
@@ -407,7 +429,16 @@ class DefaultPredictionStrategy(object):
             else:
                 return test_test_covar + MatmulLinearOperator(test_train_covar, covar_correction_rhs.mul(-1))
 
-        precomputed_cache = self.covar_cache
+        if settings.observation_nan_policy.value() == "ignore":
+            precomputed_cache = self.covar_cache
+        else:
+            # The cached root belongs to the complete training set: recompute it for the observed part
+            train_train_covar, test_train_covar = self._ignore_missing_observations(
+                self.lik_train_train_covar, to_dense(test_train_covar)
+            )
+            precomputed_cache = to_dense(train_train_covar.root_inv_decomposition().root)
+            if settings.detach_test_caches.on():
+                precomputed_cache = precomputed_cache.detach()
         covar_inv_quad_form_root = self._exact_predictive_covar_inv_quad_form_root(precomputed_cache, test_train_covar)
         if torch.is_tensor(test_test_covar):
             return to_linear_operator(
